@@ -8,6 +8,7 @@ Property theorems (DESIGN.md §6 C04) about the pipeline model `P2/Model/Pipelin
 import P2.Model.LogStore
 import P2.Model.Pipeline
 import P2.Lemmas.LogStore
+import P2.Extracted.C04
 
 namespace P2.C04
 open P2.Header P2.LogStore P2.Pipeline P2.LogStoreLemmas
@@ -119,6 +120,39 @@ theorem c04_processed_only_if_completed (out : Outcome) (hasBody decodes autoAck
     cases hasBody <;> cases decodes <;> cases ackOk <;> cases autoAck <;> simp [isFailed] at h ⊢
   | already =>
     cases hasBody <;> cases decodes <;> cases ackOk <;> cases autoAck <;> simp [isFailed] at h ⊢
+
+/-! ### Ties to the source text -/
+
+/-- The pipeline as `pipelineStep` transcribes it, read from the current sources: two stages
+    `ingest` then `log_prune`; the `Err` arm of the ingest stage records the failure **and disarms
+    the prune arguments** (`disarm_log_prune` sets them to `Ignore`), the `Ok` arms only record
+    the result; `Event::new` arms `PruneEntriesUntil {author: header.verifying_key, log_id,
+    seq_num: header.seq_num}` iff the prune flag is set; `LogPrune::process` calls
+    `prune_entries(author, log_id, seq_num)` exactly for armed arguments. -/
+theorem c04_extracted_pipeline :
+    P2.Extracted.C04.stageNames = ["ingest", "log_prune"] ∧
+    P2.Extracted.C04.stageOkArms = ["event.ingest = ProcessorStatus::Completed(result); event",
+      "event.log_prune = ProcessorStatus::Completed(result); event"] ∧
+    P2.Extracted.C04.stageErrArms = ["event.ingest = ProcessorStatus::Failed(err); event.disarm_log_prune(); event",
+      "event.log_prune = ProcessorStatus::Failed(err); event"] ∧
+    P2.Extracted.C04.disarmBody = "self.log_prune_args = LogPruneArgs::Ignore;" ∧
+    P2.Extracted.C04.eventPruneArgs = "if prune_flag.is_set() { LogPruneArgs::PruneEntriesUntil { author: operation.header.verifying_key, log_id, seq_num: operation.header.seq_num, } } else { LogPruneArgs::Ignore }" ∧
+    P2.Extracted.C04.eventIngestArgs = "log_id: log_id.clone(), topic, prune_flag: prune_flag.is_set()," ∧
+    P2.Extracted.C04.logPruneGuard = "if let LogPruneArgs::PruneEntriesUntil { author, log_id, seq_num, } = args" ∧
+    P2.Extracted.C04.logPruneCall = "self.store.prune_entries(author, log_id, seq_num).await" := by
+  refine ⟨rfl, rfl, rfl, rfl, rfl, rfl, rfl, rfl⟩
+
+/-- The scope of a deletion, read from the current source of `prune_entries`: one statement,
+    `verifying_key = ? AND log_id = ? AND seq_num < ?` (three separate conjuncts — not a row-value
+    comparison), bound to author, log id, sequence number in this order — what `pruneBelow`
+    (`c04_exact_scope`) transcribes; and the ingest stage works on the latest entry of exactly
+    `(header.verifying_key, log_id)`. -/
+theorem c04_extracted_prune_scope :
+    P2.Extracted.C04.pruneSql = "DELETE FROM operations_v1 WHERE verifying_key = ? AND log_id = ? AND seq_num < ?" ∧
+    P2.Extracted.C04.pruneBinds = ["author.to_string()", "log_id", "until.to_string()"] ∧
+    P2.Extracted.C04.latestSql = "SELECT hash, header, body FROM operations_v1 WHERE verifying_key = ? AND log_id = ? ORDER BY seq_num DESC LIMIT 1" ∧
+    P2.Extracted.C04.pastHeaderExpr = "store .get_latest_entry_tx(&operation.header.verifying_key, log_id) .await .map_err(STORE)? .map(|operation| operation.header)" := by
+  refine ⟨rfl, rfl, rfl, rfl⟩
 
 /-! ### The pinned tree: a failed ingest still forwards the unverified prune arguments -/
 
